@@ -137,7 +137,12 @@ def dispatch (op : String) (args obs : List String) : Outcome :=
      | b :: rest =>
        let all := " ".intercalate (b :: rest)
        { corr := .ok,
-         prop := if b == "bad=0" then .ok else .bad s!"C17 concurrent websocket client scenario: {all} ; C15 concurrent websocket client scenario: {all} ; C16 concurrent websocket client scenario: {all}",
+         prop := if b == "bad=0" then .ok
+                 -- what went wrong on a connection (readers, writers, closes, frames, panics) concerns C15 / C16 too;
+                 -- a lifecycle call of the client that failed without reason is C17's alone
+                 else if (all.splitOn "two-").length > 1 || (all.splitOn "-closed-").length > 1 || (all.splitOn "panic").length > 1 || (all.splitOn "crash").length > 1 || (all.splitOn "deadlock").length > 1 then
+                   .bad s!"C17 concurrent websocket client scenario: {all} ; C15 concurrent websocket client scenario: {all} ; C16 concurrent websocket client scenario: {all}"
+                 else .bad s!"C17 concurrent websocket client scenario: {all}",
          branch := "wsconc" }
      | _ => { corr := .bad "bad-line" })
   | "WSG" =>
